@@ -64,7 +64,7 @@ def gen_plan(rng, nmax=8, seeded_ok=False):
                 ins = sorted(ins)
                 if not _sim_acyclic(plan + [{"kind": kind, "inp": ins}]):
                     continue
-            if kind == "c" and seeded_ok and rng.random() < 0.2 and len(plan) + 2 <= n:
+            if kind == "c" and seeded_ok and rng.random() < 0.45 and len(plan) + 2 <= n:
                 # a calculator that needs a seed: the model adds a seed value node as its (keyword) input
                 plan.append({"kind": "v", "inp": [], "seed_for": len(plan) + 2})
                 plan.append({"kind": "c", "inp": ins + [len(plan)], "seeded": True})
@@ -305,7 +305,7 @@ def gen_ops(rng, plan, nops, atoms=("a", "b", "c")):
                     {"ev": "update_all"},
                     {"ev": "assign", "n": i, "x": rng.choice(atoms) + str(rng.randint(0, 2)), "via_var": False},
                     {"ev": "update_all"}]
-        elif r < 0.26 and seeded:
+        elif r < 0.34 and seeded:
             # Model.set_seed: new keys for all seed nodes (with auto-update on or off)
             ops.append({"ev": "set_seed", "seed": rng.randint(1, 10**6)})
         elif r < 0.26 and vals:
